@@ -273,4 +273,48 @@ theorem exec_jumpT {code : List Instr} {pc : Nat} {st : List Val} {env : Env} {o
     omega
   · simp [step, f2, ht, Instr.size]
 
+/-- `jumpArgs` on an even or odd byte count: the two jump arguments recombine to `n / 2` code units -/
+theorem jumpArgs_units {n hi lo : Nat} (h : jumpArgs n = some (hi, lo)) : (0 * 256 + hi) * 256 + lo = n / 2 := by
+  unfold jumpArgs at h
+  simp only at h
+  split at h
+  · simp only [Option.some.injEq, Prod.mk.injEq] at h
+    obtain ⟨h1, h2⟩ := h
+    subst h1 h2
+    have := Nat.div_add_mod (n / 2) 256
+    omega
+  · simp at h
+
+/-- `EXTENDED_ARG hi; POP_JUMP_FORWARD_IF_FALSE lo` -/
+theorem exec_popJump {code : List Instr} {pc : Nat} {st : List Val} {env : Env} {out : List (List Char)} {hi lo n : Nat} {v : Val} {cs}
+    (h : CodeAt code pc (.extArg hi :: .popJumpIfFalse lo :: cs)) (hj : jumpArgs n = some (hi, lo)) :
+    Reaches code ⟨pc, 0, v :: st, env, out⟩
+      (if truthy v then ⟨pc + 4, 0, st, env, out⟩ else ⟨pc + 4 + 2 * (n / 2), 0, st, env, out⟩) := by
+  have f1 := h.fetch
+  have f2 := h.tail.fetch
+  simp only [Instr.size] at f2
+  have hs := jumpArgs_units hj
+  have r1 : Reaches code ⟨pc, 0, v :: st, env, out⟩ ⟨pc + 2, 0 * 256 + hi, v :: st, env, out⟩ :=
+    Reaches.step1 (by simp [step, f1, Instr.size])
+  refine r1.trans (Reaches.step1 ?_)
+  by_cases ht : truthy v
+  · simp [step, f2, ht, Instr.size]
+  · simp only [step, f2, ht, Instr.size]
+    simp only [Bool.false_eq_true, if_false]
+    rw [hs]
+
+/-- `EXTENDED_ARG hi; JUMP_FORWARD lo` -/
+theorem exec_jumpForward {code : List Instr} {pc : Nat} {st : List Val} {env : Env} {out : List (List Char)} {hi lo n : Nat} {cs}
+    (h : CodeAt code pc (.extArg hi :: .jumpForward lo :: cs)) (hj : jumpArgs n = some (hi, lo)) :
+    Reaches code ⟨pc, 0, st, env, out⟩ ⟨pc + 4 + 2 * (n / 2), 0, st, env, out⟩ := by
+  have f1 := h.fetch
+  have f2 := h.tail.fetch
+  simp only [Instr.size] at f2
+  have hs := jumpArgs_units hj
+  have r1 : Reaches code ⟨pc, 0, st, env, out⟩ ⟨pc + 2, 0 * 256 + hi, st, env, out⟩ :=
+    Reaches.step1 (by simp [step, f1, Instr.size])
+  refine r1.trans (Reaches.step1 ?_)
+  simp only [step, f2, Instr.size]
+  rw [hs]
+
 end ErgVerif.C01
